@@ -2,6 +2,7 @@ package main
 
 import (
 	"fmt"
+	"sort"
 	"time"
 
 	"github.com/internetarchive/Zeno/verifsim/scen"
@@ -167,8 +168,30 @@ func init() {
 		rule:       "component cases: one bubble = 2-4 concurrent checkers running SeencheckItem on trees (seed, assets, redirect target) drawn from a pool of overlapping URL texts (case variants, permuted and repeated query parameters, equivalent escapes), scheduled at the hook points around lookup and record; pipeline cases: as for C01; every check is judged against a reference set of completed records stamped with scheduler steps; distinct = distinct event-log hash",
 		planFn: func(p *propDef, tier string, seed uint64, n int) []*Case {
 			cases := compCases("C08", "seen", max(2, n/10), 100, seed, nil)
-			for _, c := range c08crawl.plan(tier, seed, n) {
+			for i, c := range c08crawl.plan(tier, seed, n) {
 				c.Idx = len(cases)
+				if i%4 == 3 {
+					// crawl-HQ seencheck: same site, queue and seen-store served by the simulated HQ (which already knows some URLs)
+					c.Scenario.Cfg.UseHQ = true
+					c.Scenario.Cfg.HQBatchSize = 1 + i%3
+					hq := &scen.HQPlan{Faults: map[string][]string{}}
+					if i%8 == 3 {
+						hq.Faults["seencheck"] = []string{"", "500", "", "reset-before"}
+					}
+					n := 0
+					for key := range c.Scenario.Site {
+						if n%3 == 0 {
+							hq.Seen = append(hq.Seen, "http://"+key)
+						}
+						n++
+					}
+					sort.Strings(hq.Seen)
+					if len(hq.Seen) > 6 {
+						hq.Seen = hq.Seen[:6]
+					}
+					c.Scenario.HQ = hq
+					c.Label = "crawl-hq"
+				}
 				cases = append(cases, c)
 			}
 			return cases
